@@ -326,7 +326,9 @@ def interrupt_worker():
     data = json.load(sys.stdin)
     k = data['k']
     side = json.load(open(os.path.join(VERIF, 'coq', 'theories', 'Gen', 'gen_singleton.side.json')))
-    init_idx = [i for i, p in enumerate(side['prog']) if p.split()[0] in ('INewAssign', 'ILoadSelf', 'IClear', 'ISetRegex', 'IAddKw')]
+    # the statements executed under the lock on first use (HistoryX.is_init_instr)
+    init_idx = [i for i, p in enumerate(side['prog'])
+                if p.split()[0] in ('INewAssign', 'ILoadSelf', 'INewLocal', 'IPublishSelf', 'IClear', 'ISetRegex', 'IAddKw')]
     # k >= number of initialisation statements: nothing is injected (an exception raised at the line event of the
     # with-exit would bypass __exit__ -- an artefact of trace-function injection -- and leave the lock held)
     target = init_idx[k] if k < len(init_idx) else None
